@@ -1,0 +1,19 @@
+//go:build verif
+
+package client
+
+// Hooks for the verification harness in /verif (build tag "verif" only).
+// Nothing here changes the behaviour of the package; without the tag this
+// file is not compiled.
+
+import (
+	"context"
+
+	"example.com/scion-time/core/measurements"
+)
+
+// VerifCollectMeasurements is collectMeasurements.
+func VerifCollectMeasurements(ctx context.Context, ms []measurements.Measurement,
+	msc chan measurements.Measurement) int {
+	return collectMeasurements(ctx, ms, msc)
+}
